@@ -31,6 +31,15 @@ CHECKS = {
              "must be dimensionless, independent and of size n - rank. Exhaustive over the pair domain in the thorough tier, seed-strided in quick.",
         note="Float/Decimal exponents restricted to dyadic rationals (no rounding artefacts). Integrality of pi-theorem exponents is not part of the statement and not asserted.",
         design="5/C04"),
+    "C05": dict(
+        technique="Hypothesis pairs/triples of quantities per dimension class with exact re-expression in other units (Fraction registry); oracle = exact base values and affine maps from an independent definition reader; equivalence, hash and trichotomy laws",
+        text="Quantities are drawn per dimension class as exact re-expressions of one physical value in other units, perturbed values, zeros and negatives "
+             "(Fraction registry, exact), temperature-like units through R's affine maps (offset, absolute, delta), cross-dimension pairs, bare numbers, floats "
+             "away from ties and NaN. ==/!= must equal 'same R-dimension and equal R-value', be symmetric/transitive, equal quantities must hash equal "
+             "(also to the bare number they equal), exactly one of <,==,> must hold in agreement with the base values, ordering across dimensions must raise "
+             "DimensionalityError. Sampling (thousands of cases per run), no exhaustive sub-domain.",
+        note="Units with non-rational or negative factors are excluded from exact/ordering clauses; Quantity == Unit (as opposed to Unit == Quantity) is outside the statement.",
+        design="5/C05"),
     "C08": dict(
         technique="bounded-exhaustive enumeration of all prefix x spelling x plural strings (1.3e5) against the decomposition rule computed by an independent definition reader; Hypothesis mutated/random strings; op-sequence (model-based) lookup histories compared with fresh registries; cross-process determinism probe",
         text="Every string p+u+s over the 72 prefix spellings, ~900 unit spellings and the optional plural is resolved and compared with R's tables: exact "
